@@ -36,7 +36,7 @@ Theorem C07_names_written_namespace_first : forall p w d k refs,
 Proof. exact T_Write2.C06_first_uri. Qed.
 
 Theorem C07_written_text_wellformed : forall lm p w, text_clean lm p w = true ->
-  exists d vts s, write_doc p w = Ok d /\ write_text lm p w = Ok s /\ xparse s = Some (erase (doc_ltree lm d vts)).
+  exists d vts s, write_doc p w = Ok d /\ value_trees p w = Some vts /\ write_text lm p w = Ok s /\ xparse s = Some (erase (doc_ltree lm d vts)).
 Proof. exact write_text_wellformed. Qed.
 Theorem C07_text_is_spelling : forall lm d vts, doc_clean lm d = true ->
   doc_text lm d (map (omap (spell_treeq noq)) vts) = spell_l PROLOG (doc_ltree lm d vts).
